@@ -225,11 +225,18 @@ def discharge_all(obligs, scope=None, jobs=16, want_refute=True, second_solver=F
     refuted instance (the remaining instances of that name are reported as 'skipped-after-refutation')."""
     jl = []
     for i, ob in enumerate(obligs):
-        s = ob.claim if z3.is_quantifier(ob.claim) else z3.simplify(ob.claim)
-        if z3.is_true(s):
-            jl.append(None)
-            continue
-        jl.append({"id": i, "smt2": to_smt2(ob.hyps, ob.claim), "scope": scopes[i] if scopes else scope,
+        if hasattr(ob, "smt2"):
+            if ob.smt2 is None:
+                jl.append(None)
+                continue
+            smt2 = ob.smt2
+        else:
+            s = ob.claim if z3.is_quantifier(ob.claim) else z3.simplify(ob.claim)
+            if z3.is_true(s):
+                jl.append(None)
+                continue
+            smt2 = to_smt2(ob.hyps, ob.claim)
+        jl.append({"id": i, "smt2": smt2, "scope": scopes[i] if scopes else scope,
                    "want_refute": want_refute, "name": (getattr(ob, "kernel", ""), ob.name)})
     first = {}
     dup = {}
